@@ -263,7 +263,23 @@ def rule_preorder(chk):
     loops = [n for n in cfg.live if n.kind == "for_next" and unparse(n.ast.iter) == "self.children"]
     problems = []
     if len(loops) != 1:
-        problems.append("descendants does not iterate self.children (whole, in order)")
+        # an iterative walk with an explicit work list: decided only where the order is visibly wrong
+        rev = [x for x in iter_own_nodes(d.node) if isinstance(x, ast.Call) and isinstance(x.func, ast.Attribute) and x.func.attr == "extendleft" and x.args
+               and not (isinstance(x.args[0], ast.Call) and unparse(x.args[0].func) == "reversed")]
+        MUT = ("pop", "remove", "append", "clear", "insert", "sort", "reverse", "extend", "popleft", "appendleft", "extendleft", "__delitem__", "__setitem__")
+        aliases = {t.id for x in iter_own_nodes(d.node) if isinstance(x, ast.Assign) and unparse(x.value) == "self.children" for t in x.targets if isinstance(t, ast.Name)}
+        muts = [x for x in iter_own_nodes(d.node) if isinstance(x, ast.Call) and isinstance(x.func, ast.Attribute) and x.func.attr in MUT
+                and (unparse(x.func.value) == "self.children" or (isinstance(x.func.value, ast.Name) and x.func.value.id in aliases))]
+        if muts:
+            problems.append("`%s` changes the action's own children list (the work list is bound to self.children itself, not to a copy): enumerating the descendants removes children from the "
+                            "LoggedAction, so a second look at children / descendants / type_tree no longer matches the parsed tree" % unparse(muts[0])[:50])
+        elif rev:
+            problems.append("the work list is refilled with `%s`: deque.extendleft inserts its items one by one at the left, i.e. in REVERSED order, so the children of every nested action are "
+                            "enumerated last-to-first (visible as soon as a non-root action has two children)" % unparse(rev[0])[:60])
+        elif any(isinstance(x, ast.Yield) for x in iter_own_nodes(d.node)) or any(isinstance(x, ast.Return) for x in iter_own_nodes(d.node)):
+            raise AnalysisError("LoggedAction.descendants is not the recursive `for child in self.children` walk (traversal order of this shape is not modelled)")
+        else:
+            problems.append("descendants does not enumerate self.children")
     else:
         head = loops[0]
         lv = head.ast.target.id
